@@ -20,6 +20,9 @@ ASSUMPTIONS = ["Go panics, stack exhaustion and hangs are runtime behaviour a Ga
 TRUSTED = []
 
 SHAPES = [
+    "values:\n  s: {fn::secret: \"\"}\n  t: {fn::secret: {ciphertext: \"\"}}\n  u: {fn::secret: \"\"}\n",
+    "values:\n  a: [[[[[[[[[[[[[[[[[[[[[[[[[[[[[[[[[[[[[[[[[[[[[[[[[[[[[[[[[[[[[[[[1]]]]]]]]]]]]]]]]]]]]]]]]]]]]]]]]]]]]]]]]]]]]]]]]]]]]]]]]]]]]]]]]]\n",
+    "values:\n  a: &x [1, 2]\n  b: [*x, *x, *x, *x, *x, *x, *x, *x]\n  c: &y [*x, *x]\n  d: [*y, *y, *y, *y]\n",
     "values:\n  a: {fn::join: 5}\n", "values:\n  a: {fn::join: [1]}\n", "values:\n  a: {fn::join: [a, b, c]}\n",
     "values:\n  a: {fn::join: [[x], y]}\n", "values:\n  a: {fn::join: [',', [1, {x: 2}]]}\n",
     "values:\n  a: {fn::open: hello}\n", "values:\n  a: {fn::open: {provider: 5, inputs: {}}}\n",
@@ -227,6 +230,19 @@ def gen(rng, tier):
                     c["provs"] = dict(recs, ps={"in": "always", "out": o, "beh": beh, "const": G.xspec({"val": "s"})})
                     c["sites"] = []
                     cases.append(dict(c, kind="ev", check=chk, show=True))
+    # very deep nesting (flow and block), very long property paths, scalars and keys.  Sizes are chosen below the point where
+    # the implementation's super-linear load time (measured: flow nesting 1000 / 2000 / 4000 / 8000 deep -> 2 s / 17 s / 113 s /
+    # 747 s for the six operations; a `${x.x. ... .y}` path of 2000 / 4000 / 8000 / 16000 segments -> 4 s / 14 s / 50 s / 190 s) would
+    # be mistaken for a hang: that growth is recorded as an observation in DESIGN section 8, it is not judged here
+    deep = [("values:\n  a: " + "[" * n + "]" * n + "\n") for n in (100, 600, 20000, 100000)] + \
+           [("values:\n  a: " + "{k: " * n + "1" + "}" * n + "\n") for n in (100, 600, 20000)] + \
+           [("values:\n" + "".join("  " * (i + 1) + "k:\n" for i in range(n)) + "  " * (n + 1) + "v\n") for n in (100, 400)] + \
+           [("values:\n  a: ${" + "x." * n + "y}\n") for n in (100, 1000)] + \
+           [("values:\n  a: " + "$${" * n + "\n") for n in (1000, 100000)] + \
+           [("values:\n  " + "k" * n + ": " + "v" * n + "\n") for n in (1000, 100000)] + \
+           [("values:\n  a: {fn::join: [\",\", [" + ", ".join(["x"] * n) + "]]}\n") for n in (1000, 20000)]
+    for doc in deep:
+        cases.append({"kind": "raw", "text": doc.encode("latin-1").hex()})
     # (3) raw stream
     for s in SHAPES:
         cases.append({"kind": "raw", "text": s.encode("latin-1").hex()})
